@@ -2,6 +2,7 @@
    core_table / pointer_fields are generated from internal/core/core.go and internal/conf/conf.go on this run. *)
 From Coq Require Import List String ZArith Bool.
 Require Import MTX.Model.C13_Reload MTX.Proofs.C13_Reload MTX.Proofs.C13_Live MTXGen.C13_CoreDeps.
+Require Import MTX.Model.C13_Push MTX.Proofs.C13_Push.
 Import ListNotations.
 Local Open Scope string_scope.
 Local Open Scope list_scope.
@@ -129,4 +130,58 @@ Example C13_history_example :
   (gen_of (start atomv core_table c0 "rtspServer"), gen_of (s1 "rtspServer"), gen_of (s2 "rtspServer")) = (1, 0, 3)%Z /\
   (gen_of (s1 "hlsServer"), gen_of (s1 "api"), gen_of (s2 "api"), gen_of (s2 "hlsServer")) = (1, 2, 3, 1)%Z /\
   match s2 "api" with Some i => href i "rtspServer" | None => 0%Z end = 3%Z.
+Proof. vm_compute. repeat split. Qed.
+
+(* --- the in-place reload statements of closeResources, each with its own guard (core_pushes is generated from core.go:
+   `if !close<G> && [p.<T> != nil &&] changed(F) { p.<T>.Reload…(newConf.F) }` as (G, T, F)) --- *)
+
+(* for EVERY table, statement list, pair of configurations and state: when every statement is guarded by the close variable
+   of the component it pushes into (misguarded = []) and every `reloads` entry has its statement (unpushed = []), the
+   statements as written behave as the rows say, so that every theorem above (stated on `reload`) is about them *)
+Theorem C13_pushes_as_rows : forall tbl pushes ptrs old new s,
+  misguarded tbl pushes = [] -> unpushed tbl pushes = [] ->
+  st_eq (close_pass_g tbl pushes ptrs old new s) (close_pass tbl ptrs old new s).
+Proof. exact close_pass_g_equiv. Qed.
+Print Assumptions C13_pushes_as_rows.
+
+(* … and directly: whatever else changes in the same reload (old, new arbitrary), a standing component that this reload does
+   not close is afterwards the same instance, holds the same components, and holds the NEW value of a changed field that
+   its row pushes in place (path configurations -> path manager / playback server / record cleaner, internal users) *)
+Theorem C13_pushed_whenever : forall atomv tbl pushes ptrs n old new s r i f,
+  well_ordered [] tbl = true -> misguarded tbl pushes = [] -> unpushed tbl pushes = [] ->
+  In r tbl -> s (comp r) = Some i -> closes_eval tbl ptrs old new (comp r) = false ->
+  mem f (reloads r) = true -> val (old f) <> val (new f) ->
+  exists j, reload_g atomv n tbl pushes ptrs old new s (comp r) = Some j /\ gen j = gen i /\ hval j f = val (new f)
+            /\ (forall d, href j d = href i d).
+Proof. exact pushed_whenever. Qed.
+Print Assumptions C13_pushed_whenever.
+
+(* the generated statements: each guarded by its own component's close variable, one per `reloads` entry (a failing
+   instance prints the offending statements) *)
+Theorem C13_core_pushes_guarded : misguarded core_table core_pushes = [] /\ unpushed core_table core_pushes = [].
+Proof. vm_compute. split; reflexivity. Qed.
+Print Assumptions C13_core_pushes_guarded.
+
+(* a guard copied from another component is wrong (two-row witness: playback address and path configurations change in
+   one reload; the path manager survives holding the old path configurations) and invisible to one-change reloads *)
+Theorem C13_guard_of_another_component_refuted :
+  w_gen w_bad (w_c 1 10) (w_c 2 11) "pathManager" = 1%Z /\ w_held w_bad (w_c 1 10) (w_c 2 11) "pathManager" "Paths" = 10%Z /\
+  w_gen w_good (w_c 1 10) (w_c 2 11) "pathManager" = 1%Z /\ w_held w_good (w_c 1 10) (w_c 2 11) "pathManager" "Paths" = 11%Z /\
+  misguarded w_tbl w_bad = [("playbackServer", "pathManager", "Paths")] /\ misguarded w_tbl w_good = [] /\ unpushed w_tbl w_good = [].
+Proof. exact guard_of_another_component_refuted. Qed.
+Print Assumptions C13_guard_of_another_component_refuted.
+
+(* the same on the generated table: PlaybackAddress and Paths change in one reload. With the generated statements the
+   playback server is recreated (generation 2), the path manager stays (1) and holds the new Paths (7); with the path
+   manager's statement re-guarded by closePlaybackServer it keeps the old Paths (0) and the check names the statement *)
+Example C13_pair_example :
+  let atomv := fun (f t : string) (v : Z) => if String.eqb t "" then Z.even v else Z.eqb v 0 in
+  let c0 : conf := fun _ => {| val := 0; addr := 0 |} in
+  let c1 : conf := fun f => {| val := if String.eqb f "PlaybackAddress" then 2 else if String.eqb f "Paths" then 7 else 0; addr := 0 |} in
+  let seeded := map (fun p => if String.eqb (pt p) "pathManager" then ("playbackServer", pt p, pf p) else p) core_pushes in
+  let s1 := reload_g atomv 2 core_table core_pushes pointer_fields c0 c1 (start atomv core_table c0) in
+  let s2 := reload_g atomv 2 core_table seeded pointer_fields c0 c1 (start atomv core_table c0) in
+  (gen_of (s1 "playbackServer"), gen_of (s1 "pathManager"), match s1 "pathManager" with Some i => hval i "Paths" | None => (-1)%Z end) = (2, 1, 7)%Z /\
+  (gen_of (s2 "playbackServer"), gen_of (s2 "pathManager"), match s2 "pathManager" with Some i => hval i "Paths" | None => (-1)%Z end) = (2, 1, 0)%Z /\
+  misguarded core_table seeded = [("playbackServer", "pathManager", "Paths")].
 Proof. vm_compute. repeat split. Qed.
